@@ -713,6 +713,14 @@ def gen_aggregation(rng, tier, damped_history=False):
                 act = o
                 break
             x = draw()
+    if damp is not None and act is not None:
+        # the earlier response is an admissible one too: its active set keeps at least one entry
+        for _ in range(50):
+            if np.sum(np.ones(n, bool)[pym.AggActiveSet(**act)(xprev)]) >= 1:
+                break
+            xprev = np.abs(draw()) * float(rng.uniform(0.5, 2))
+        else:
+            damp = None
     argname = {"PNorm": "p", "KSFunction": "rho", "SoftMinMax": "alpha"}[kind]
 
     def build():
